@@ -1,6 +1,113 @@
-import PppModel.Auto
+import PppModel.Lemmas.V1Term
 
-/-! # C18 (theorems under construction) -/
+/-!
+# C18 — the v1 verdict is final once the first line break or 107 bytes have been seen
+-/
 
 namespace C18
+open V1
+
+/-- On a CR-frozen input the window is `a ++ [CR, b]` and every entry point runs
+`parse_header` on exactly that. -/
+theorem parseBytes_frozen_cr {x : B} {c : Nat} (h : firstCR x = some c) (hc : c + 1 < x.length) :
+    ∃ a b, crFree a ∧ x.take (c + 2) = a ++ [CR, b] ∧
+      parseBytes x = (if !Utf8.valid (a ++ [CR, b]) then .error .invalidUtf8
+        else match parseHeader (a ++ [CR, b]) with
+          | .error e => .error (.parse e)
+          | .ok hd => .ok hd) := by
+  obtain ⟨a, b, ha, -, hw⟩ := window_shape h hc
+  refine ⟨a, b, ha, hw, ?_⟩
+  simp only [parseBytes, windowLength_frozen_cr h hc, hw]
+  rfl
+
+/-- **C18 (bytes).** Once the input contains its first CR followed by at least one
+more byte, or 107 bytes without any CR, the result is a success or a terminal
+error. -/
+theorem frozen_complete_bytes (x : B) (h : frozen x) : Auto.isIncompleteV1 (parseBytes x) = false := by
+  rcases h with ⟨c, h1, h2⟩ | ⟨h1, h2⟩
+  · obtain ⟨a, b, ha, -, hp⟩ := parseBytes_frozen_cr h1 h2
+    rw [hp]
+    split
+    · rfl
+    · have := parseHeader_terminated a b ha
+      cases hr : parseHeader (a ++ [CR, b]) with
+      | ok hd => rfl
+      | error e =>
+        rw [hr] at this
+        simpa [NotInc, Auto.isIncompleteV1Str, Auto.isIncompleteV1, BinaryParseError.isIncomplete] using this
+  · have : windowLength x = none := windowLength_long h1 h2
+    simp [parseBytes, this, Auto.isIncompleteV1, BinaryParseError.isIncomplete, ParseError.isIncomplete]
+
+/-- **C18 (text).** The same through `TryFrom<&str>` (and hence both `FromStr`). -/
+theorem frozen_complete_str (x : B) (h : frozen x) : Auto.isIncompleteV1Str (parseStr x) = false := by
+  rcases h with ⟨c, h1, h2⟩ | ⟨h1, h2⟩
+  · obtain ⟨a, b, ha, -, hw⟩ := window_shape h1 h2
+    simp only [parseStr, windowLength_frozen_cr h1 h2, hw]
+    split
+    · rfl
+    · exact parseHeader_terminated a b ha
+  · have : windowLength x = none := windowLength_long h1 h2
+    simp [parseStr, this, Auto.isIncompleteV1Str, ParseError.isIncomplete]
+
+/-- **C18 (no later byte changes it).** After the first CR and one more byte the
+result is the same whatever follows. -/
+theorem frozen_stable_bytes (x t : B) (c : Nat) (h : firstCR x = some c) (hc : c + 1 < x.length) :
+    parseBytes (x ++ t) = parseBytes x := by
+  obtain ⟨h1, h2⟩ := window_append_frozen t h hc
+  simp only [parseBytes, h1, h2, windowLength_frozen_cr h hc]
+
+/-- After 107 bytes without CR every continuation is a terminal error as well
+(`HeaderTooLong`, or `InvalidUtf8` if the over-long line is not text). -/
+theorem frozen_long_bytes (x t : B) (h : firstCR x = none) (hl : 107 ≤ x.length) :
+    ∃ e, parseBytes (x ++ t) = .error e ∧ e.isIncomplete = false := by
+  simp only [parseBytes]
+  cases hw : windowLength (x ++ t) with
+  | none => exact ⟨_, rfl, rfl⟩
+  | some n =>
+    have hn : 107 < n := by
+      cases hcr : firstCR (x ++ t) with
+      | none =>
+        rw [windowLength_long hcr (by simp; omega)] at hw; cases hw
+      | some i =>
+        simp only [windowLength, hcr, Option.some.injEq, CRLF, List.length_cons, List.length_nil,
+          List.length_append] at hw
+        obtain ⟨a, r, hxt, ha, rfl⟩ := firstCR_some hcr
+        -- the first CR of x ++ t lies in t
+        have : x.length ≤ a.length := by
+          rcases Nat.lt_or_ge a.length x.length with hlt | hge
+          · exfalso
+            have hx : byteAt (x ++ t) a.length = CR := by
+              rw [hxt, byteAt_append_right (Nat.le_refl _)]; simp
+            rw [byteAt_append_left hlt] at hx
+            have hmem : byteAt x a.length ∈ x := by
+              simp only [byteAt, List.getElem?_eq_getElem hlt, Option.getD_some]
+              exact List.getElem_mem _
+            exact (firstCR_none_iff x).mp h _ hmem hx
+          · exact hge
+        have hlen : (x ++ t).length = a.length + 1 + r.length := by rw [hxt]; simp; omega
+        simp only [List.length_append] at hlen
+        omega
+    have hnle : n ≤ (x ++ t).length := by
+      cases hcr : firstCR (x ++ t) with
+      | none =>
+        rw [windowLength_long hcr (by simp; omega)] at hw; cases hw
+      | some i =>
+        simp only [windowLength, hcr, Option.some.injEq] at hw
+        omega
+    simp only
+    split
+    · exact ⟨_, rfl, rfl⟩
+    · have hlen : ((x ++ t).take n).length > MAX_LENGTH := by
+        simp only [List.length_take, MAX_LENGTH]; omega
+      have hne : ((x ++ t).take n).isEmpty = false := by
+        cases hq : (x ++ t).take n with
+        | nil => rw [hq] at hlen; simp [MAX_LENGTH] at hlen
+        | cons _ _ => rfl
+      simp only [parseHeader, hne, Bool.false_eq_true, if_false, hlen, if_true]
+      exact ⟨_, rfl, rfl⟩
+
+/-- Non-vacuity: three frozen inputs of the kinds the property names. -/
+example : Auto.isIncompleteV1 (parseBytes [0x50, 0x0D, 0x50]) = false := by decide
+example : parseBytes [0x50, 0x0D, 0x50] = .error (.parse .invalidPrefix) := by decide
+
 end C18
